@@ -413,3 +413,25 @@ theorem C12_reproduces_lower_point (trunc : ℝ → Nat) (lo nx : ℝ × ℝ) (r
       rw [hF', hLline]
       simp only
       rw [pow10_log10 _ hseg.d0]
+
+/-- the D15 clause for the grading of a slurry object: if D15 lies above the pseudo-liquid limit and the grading starts at the limit (its log-line
+through D15 and D50 reaches the limit at a positive fraction), the diameter lookup returns exactly D15 at fraction 0.15 — although 0.15 is in general not
+a node of the discretised grading (`hl50`: D50 is not within rounding of the limit, so the D15 point is not discarded) -/
+theorem C12_slurry_D15_reproduced (trunc : ℝ → Nat) (Dp nu rhol rhos d15 d50 d85 : ℝ) (h1 : d15 < d50) (h2 : d50 < d85)
+    (hl0 : 0 < framework.pseudo_dlim Dp nu rhol rhos) (hl15 : framework.pseudo_dlim Dp nu rhol rhos < d15)
+    (hl50 : framework.pseudo_dlim Dp nu rhol rhos * ((1.0:ℝ) + 1e-12) < d50)
+    (hX : 0 < (0.5:ℝ) - (Transc.log10 d50 - Transc.log10 (framework.pseudo_dlim Dp nu rhol rhos)) * ((0.5:ℝ) - 0.15) / (Transc.log10 d50 - Transc.log10 d15)) :
+    getDx (createFracs (fun k : Nat => (k : ℝ)) trunc [(0.15, d15), (0.5, d50), (0.85, d85)] Dp nu rhol rhos 10).gsd 0.15 = some d15 := by
+  have h0 : 0 < d15 := lt_trans hl0 hl15
+  have hl : framework.pseudo_dlim Dp nu rhol rhos < d85 := lt_trans hl15 (lt_trans h1 h2)
+  have hin := slurry_input_ok _ d15 d50 d85 h0 h1 h2 hl0 hl
+  have hne' : framework.pseudo_dlim Dp nu rhol rhos < (([((0.5:ℝ), d50), (0.85, d85)] : List (ℝ × ℝ)).getLast (List.cons_ne_nil _ _)).2 := by
+    simp only [List.getLast_cons_cons, List.getLast_singleton]; exact hl
+  have hB : (0.85:ℝ) < 0.999 := by norm_num
+  have hmain := C12_reproduces_lower_point trunc (0.15, d15) (0.5, d50) [(0.85, d85)] Dp nu rhol rhos 10 0.85 hB hin hne'
+  have hsk : skipBelow (framework.pseudo_dlim Dp nu rhol rhos) ([((0.15:ℝ), d15), (0.5, d50), (0.85, d85)] : List (ℝ × ℝ)).length (0.15, d15) (0.5, d50) [(0.85, d85)]
+      (([((0.15:ℝ), d15), (0.5, d50), (0.85, d85)] : List (ℝ × ℝ)).length - 1) = ((0.15, d15), (0.5, d50), [(0.85, d85)], 2) := by
+    simp only [List.length_cons, List.length_nil, skipBelow]
+    rw [if_neg (not_le.2 hl50)]
+  simp only [hsk] at hmain
+  exact hmain hX hl15
